@@ -8,7 +8,7 @@ rc_bin("c02_psched", ["harness/c02_provider_sched.cc"], lib=False,
        shadow_srcs_globs=METRICS_SHADOW_SRCS_GLOBS, repo_srcs_globs=METRICS_PLAIN_GLOBS)
 PROPS["C02"] = dict(
     level_text="Same schedule-controlled engine as C01, biased to control operations (concurrent ForceFlush callers incl. producers that flush right after producing, Shutdown racing flushes, repeated/cross-thread Shutdown, destruction-only shutdown, operations after shutdown, zero/finite/max timeouts, exporters whose Export/ForceFlush/Shutdown are slow or report failure). Oracles over logical stamps: a ForceFlush that returned true implies every record produced before its call was exported (Export returned) before it returned and the exporter's ForceFlush ran inside the window; exporter Shutdown exactly once; no exporter call after the first Shutdown returned; post-shutdown calls are prompt and effect-free; termination = no scheduler-detected deadlock and no step-budget overrun.",
-    technique="generated schedules (weighted/uniform/PCT) over a deterministic scheduler shim (rapidcheck choice streams) + history-invariant oracle + provider-level model-based programs + periodic-reader scenarios",
+    technique="generated schedules (weighted/uniform/PCT/sparse) over a deterministic scheduler shim (rapidcheck choice streams) + history-invariant oracle over logical stamps; provider-level model-based programs on real threads; periodic-reader scenarios and MeterProvider::ForceFlush/Shutdown scenarios with the whole metrics SDK compiled against the shim (provider_sched)",
     rule="A case = (processor configuration, thread programs, exporter behaviour, schedule).",
     assumptions=SCHED_ASSUMPTIONS + [SC_NOTE],
     runs=[
